@@ -420,6 +420,12 @@ def procStepCore0 (st : ProcEng) (t : Tokens) (_impl : Option String) : ProcEng 
         let (s, reqs) := harvestReply st.s r o
         ({ st with s := s }, { model := s!"reqs={canonReqsT st.tainted reqs}" })
   | "taint" => ({ st with tainted := tokStr t 2 :: st.tainted }, { model := "ok" })
+  | "logscan" =>
+    (st, { model := "leak=0", specFails := match _impl with
+      | some line => if line.startsWith "leak=1" then
+          ["C14 redact: the full license key of an application appears in what the daemon logged during this history"]
+        else if line == "leak=0" then [] else ["harness: log scan not possible (" ++ line ++ ")"]
+      | none => [] })
   | "mut" => (st, { model := "ok" })
   | "apphostile" =>
     (st, { model := "crash=0", specFails := match _impl with
